@@ -764,6 +764,37 @@ class Translator:
             g = GetNextGlobal(g)
         return bases
 
+    def typeinfo_graph(self):
+        """C helpers describing the class hierarchy recorded in the module's own type_info objects (Itanium ABI layouts):
+        number of direct bases, k-th base type_info, its offset in the derived object and whether it is a public non-virtual base"""
+        rows = []
+        g = GetFirstGlobal(self.mod)
+        while g:
+            n = vname(g)
+            if n.startswith('_ZTI') and not IsDeclaration(g):
+                init = GetInitializer(g)
+                if GetValueKind(init) == VK['ConstantStruct']:
+                    nops = GetNumOperands(init); kind = vstr(GetOperand(init, 0))
+                    def ti_of(o):
+                        while GetValueKind(o) == VK['ConstantExpr']: o = GetOperand(o, 0)
+                        return self.gname(o) if GetValueKind(o) == VK['GlobalVariable'] else None
+                    bases = []
+                    if '__si_class_type_info' in kind and nops >= 3:
+                        b = ti_of(GetOperand(init, 2));  bases = [(b, 0, 1)] if b else []
+                    elif '__vmi_class_type_info' in kind and nops >= 4:
+                        cnt = ConstIntGetZExtValue(GetOperand(init, 3))
+                        for i in range(cnt):
+                            b = ti_of(GetOperand(init, 4 + 2 * i)); fl = ConstIntGetZExtValue(GetOperand(init, 5 + 2 * i))
+                            if fl >= 1 << 63: fl -= 1 << 64
+                            if b: bases.append((b, fl >> 8, 1 if (fl & 2) and not (fl & 1) else 0))
+                    rows.append((self.gname(g), bases))
+            g = GetNextGlobal(g)
+        L = ['int __verif_ti_nbases(u8* ti) {'] + ['  if (ti == (u8*)&%s) return %d;' % (n, len(b)) for n, b in rows] + ['  return 0;', '}']
+        L += ['u8* __verif_ti_base(u8* ti, int k) {'] + ['  if (ti == (u8*)&%s && k == %d) return (u8*)%s%s;' % (n, i, '' if False else '&', bb[0]) for n, b in rows for i, bb in enumerate(b)] + ['  return 0;', '}']
+        L += ['int64_t __verif_ti_base_off(u8* ti, int k) {'] + ['  if (ti == (u8*)&%s && k == %d) return %dLL;' % (n, i, bb[1]) for n, b in rows for i, bb in enumerate(b)] + ['  return 0;', '}']
+        L += ['int __verif_ti_base_public(u8* ti, int k) {'] + ['  if (ti == (u8*)&%s && k == %d) return %d;' % (n, i, bb[2]) for n, b in rows for i, bb in enumerate(b)] + ['  return 0;', '}']
+        return '\n'.join(L)
+
     def exc_table(self):
         bases = self.typeinfo_bases()
         def anc(n, seen):
@@ -838,7 +869,7 @@ class Translator:
             ginit.append('%s %s = %s;' % (ct, self.gname(g), self.init(GetInitializer(g))))
         self.flush_structs()
         tids = ['int __verif_tid_%s = %d;' % (cid(n), self.typeinfo_ids[n]) for n in sorted(self.STD_BASES)]
-        c = '\n'.join(['#include "verif_rt.h"'] + self.typedefs + gdecl + protos + ginit + tids + [self.exc_table()] + bodies)
+        c = '\n'.join(['#include "verif_rt.h"'] + self.typedefs + gdecl + protos + ginit + tids + [self.exc_table(), self.typeinfo_graph()] + bodies)
         h = '\n'.join(['/* generated by ir2c.py: prototypes of the translated wrappers */', '#include "verif_rt.h"'] +
                       [t for t in self.typedefs if self._hdr_needs(t, hdr)] + hdr) + '\n'
         return c, h
